@@ -181,13 +181,18 @@ func (s StoreBelow) Top() ssa.Instruction {
 // storesBelow enumerates the stores to fields of the named struct type in root and in the static module helpers it
 // calls (maxDepth levels); `stop` names callees that are not entered.
 func (w *World) storesBelow(root *ssa.Function, structName string, maxDepth int, stop func(*Site) bool) []StoreBelow {
+	return w.storesBelowP(root, func(fs FieldStore) bool { return fs.Struct != nil && fs.Struct.Obj().Name() == structName }, maxDepth, stop)
+}
+
+// storesBelowP: as storesBelow, the stores selected by a predicate.
+func (w *World) storesBelowP(root *ssa.Function, pred func(FieldStore) bool, maxDepth int, stop func(*Site) bool) []StoreBelow {
 	cg := w.CG()
 	var out []StoreBelow
 	var walk func(fn *ssa.Function, chain []*Site, onPath map[*ssa.Function]bool)
 	walk = func(fn *ssa.Function, chain []*Site, onPath map[*ssa.Function]bool) {
 		e := EffSite{Chain: chain}
 		for _, fs := range FieldStores(fn) {
-			if fs.Struct == nil || fs.Struct.Obj().Name() != structName {
+			if !pred(fs) {
 				continue
 			}
 			out = append(out, StoreBelow{FS: fs, Chain: append([]*Site(nil), chain...), Val: e.ToRoot(fs.Store.Val), Base: e.ToRoot(fs.FA.X)})
